@@ -130,6 +130,7 @@ static std::vector<Row> ROWS;
 static size_t TOTAL = 0;
 static bool THOROUGH = false;
 static std::string MODE;
+static long SEED = 0; // VERIF_SEED: only drives the labelled pseudo-random garbage supplement
 
 // c11 shapes
 enum { SH_TRUNC, SH_SHORT, SH_MAGICPREFIX, SH_MODEPAIR, SH_WRONGTAG, SH_GARBAGE, SH_RESIGNED, SH_NSHAPES };
@@ -192,13 +193,14 @@ static Bytes make_c11(const Shape &s, int inner, std::string &desc, int &T) {
     desc = "valid file (T=" + std::to_string(T) + ") cut to " + std::to_string(s.b) + " bytes and re-tagged";
     return F;
   }
-  case SH_GARBAGE: { Bytes F(s.a); uint32_t x = 12345 + (uint32_t)s.a * 977 + (uint32_t)s.c; for (auto &v : F) { x = x * 1664525u + 1013904223u; v = (unsigned char)(x >> 24); } if (s.a >= 8 && (s.a % 3 == 0)) memcpy(F.data(), ref::MAGIC, 8); T = 1 + (int)(s.a % 4); desc = "pseudo-random bytes, length " + std::to_string(s.a); return F; }
+  case SH_GARBAGE: { Bytes F(s.a); uint32_t x = 12345 + (uint32_t)s.a * 977 + (uint32_t)s.c + (uint32_t)SEED * 2654435761u; for (auto &v : F) { x = x * 1664525u + 1013904223u; v = (unsigned char)(x >> 24); } if (s.a >= 8 && (s.a % 3 == 0)) memcpy(F.data(), ref::MAGIC, 8); T = 1 + (int)(s.a % 4); desc = "pseudo-random bytes, length " + std::to_string(s.a); return F; }
   }
   return {};
 }
 
 static void build_tables(const Args &a) {
   MODE = a.str("mode", "c05");
+  SEED = a.num("seed", 0);
   THOROUGH = a.str("tier", "quick") == "thorough";
   BASES = bases(THOROUGH, MODE == "c12");
   { // the same files written by wencry's own encrypt ("files produced by encryption"): all of them for the key check, a third for the modification check
@@ -213,7 +215,7 @@ static void build_tables(const Args &a) {
   if (MODE == "c05" || MODE == "c12") {
     for (size_t bi = 0; bi < BASES.size(); bi++)
       for (int k = 0; k < M_NKINDS; k++) {
-        bool thor_pairs = THOROUGH && bi % 9 == 0; // header-value x body-bit pairs on every 9th base file
+        bool thor_pairs = THOROUGH && bi % 3 == 0; // header-value x body-bit pairs on every third base file
         size_t c = mod_count(BASES[bi], k, thor_pairs);
         if (MODE == "c12" && (k == M_HDRxBIT)) c = 0;
         if (c) { ROWS.push_back({(int)bi, k, TOTAL, c}); TOTAL += c; }
